@@ -115,6 +115,9 @@ type Client struct {
 	// launched is set once Start has gone as far as creating the runner.
 	launched bool
 
+	// killLock serialises concurrent calls to Kill.
+	killLock sync.Mutex
+
 	unixSocketCfg UnixSocketConfig
 
 	grpcMuxerOnce sync.Once
@@ -500,6 +503,12 @@ func (c *Client) killed() bool {
 //
 // This method can safely be called multiple times.
 func (c *Client) Kill() {
+	// Only one Kill at a time: a second caller would find the protocol
+	// client already closed by the first, take that for a failed graceful
+	// shutdown, and force-kill a plugin that is still exiting cleanly.
+	c.killLock.Lock()
+	defer c.killLock.Unlock()
+
 	// Grab a lock to read some private fields.
 	c.l.Lock()
 	runner := c.runner
